@@ -175,8 +175,9 @@ def run(ck, m):
 
     # ---- R4 ----------------------------------------------------------------------------
     n4 = 0
-    for rel, f in m.files.items():
-        for t, st in stores_in(f.tree, local=False):
+    for rel, _q, t, st in m.stores():
+
+        if True:
             if isinstance(t, ast.Attribute) and t.attr == "_finalize_data":
                 n4 += 1
                 q = getattr(st, "_q", "")
